@@ -45,6 +45,17 @@ check("C02", "exploration", "bench+rfc_response",
       "Trusted: the response reader (Appendix B); well-behaved is defined narrowly (no body for HEAD/204/304, declared length <= produced bytes); gevent/eventlet hubs and TLS are not exercised.",
       "DESIGN.md section 3, C02; Appendix B")
 
+check("C09", "exploration", "bench+rfc_response",
+      "exhaustive enumeration of start_response inputs (each of 258 characters at start/middle/end of status code, reason, header name, header value; all ordered pairs of dangerous strings; hop-by-hop names in all spellings; repeated calls) through the real worker handle(), raw head compared line by line",
+      "Every program of the stated finite space is executed on 4 worker configurations x HTTP/1.0 and 1.1; inputs containing CR, LF, NUL, a non-token name or non-latin-1 text must leave no byte of the application's response on the wire, all others must be refused or yield exactly the server's lines plus one line per accepted field.",
+      "Trusted: the line-by-line head comparison; only CR/LF/NUL/non-token/non-latin-1 are must-refuse; more than two interacting odd characters are outside the bound.",
+      "DESIGN.md section 3, C09")
+check("C15", "exploration", "bench+rfc_response",
+      "exhaustive enumeration of request targets (all concatenations of <=3, thorough <=4, pieces of a 26-piece alphabet) x methods x versions and of header field lists (<=2, thorough <=3 items of 72 name/value pairs) through the real worker handle(), environ compared with an independent RFC 3875 / PEP 3333 mapping",
+      "Every accepted request's environ (REQUEST_METHOD, RAW_URI, SERVER_PROTOCOL, QUERY_STRING, PATH_INFO, SCRIPT_NAME, CONTENT_*, HTTP_*) is compared with a reference computed from the raw bytes, for 3 workers and SCRIPT_NAME unset//app.",
+      "Trusted: the reference mapping; targets with '#', asterisk/authority/relative forms are don't-care for PATH_INFO/QUERY_STRING.",
+      "DESIGN.md section 3, C15")
+
 ALL = ["C%02d" % i for i in range(1, 21)]
 for pid in ALL:
     if pid not in CHECKS:
